@@ -90,7 +90,7 @@ def session(sess, suite, n, t, kind, signers_idx=None, dkg=False):
                 v = verify(sess, suite, pk["vk"], msg, sd["sig"], NONE if suite == "secp256k1-tr" else CLASS)
                 sess.oracle(v.ok, "deserialized signature does not verify (%s)" % v.raw, rp())
             if suite in ("ed25519", "secp256k1-tr"):
-                e = sess.call("ext_verify %s vk=%s msg=%s sig=%s" % (suite, pk["vk"], msg, sb["v"]), NONE, "ext_verify")
+                e = sess.call("ext_verify %s vk=%s msg=%s sig=%s" % (suite, pk["vk"], msg, sb["v"]), NONE, "ext_verify", model=False)
                 sess.oracle(e.ok, "third-party verifier (%s) rejects the signature (%s)" % ("ed25519-dalek verify_strict" if suite == "ed25519" else "libsecp256k1 verify_schnorr", e.raw), rp())
                 sess.count("ext_verify:" + suite)
     if suite in MODEL_SUITES or rng.random() < 0.3:
